@@ -9,10 +9,10 @@ import (
 
 func init() {
 	register(&propDef{
-		ID:    "C13",
-		Level: "other",
+		ID:      "C13",
+		Level:   "other",
 		Explain: "Redirect routes, decided structurally: (S1) no store to a route.Target (incl. its RedirectURL and the url.URL behind it) reachable from a per-request entry unless the target object is a per-request copy — the 'under any number of simultaneous requests' clause, decided for all schedules by the shared-state engine; (G1) in ServeHTTP the redirect answer sits behind both gates and the lookup, uses Target.RedirectURL/RedirectCode, and no upstream-contact site is reachable after it; (C1) interval analysis of Target.RedirectCode in addTarget: at every exit the code is in {0} ∪ [300,399] on all paths, including the strconv.Atoi error edge (Atoi returns the clamped value on range errors); (P1) in BuildRedirectURL the $path/$host replacements derive from the requestURL parameter, strip is applied before prepend, and the request query is copied only on the 'template has no query' edge; (L1) in Table.Lookup the self-redirect skip edge contributes nil to the result so a skipped redirect cannot be returned. (L2) the self-redirect test compares scheme, full host:port and path. (E2) Table.Lookup hands BuildRedirectURL the request URL itself or a copy carrying RawPath; Not decided: the text of the Location for each template form (string contents, e.g. %2F with https://$host$path).",
-		Run:   runC13,
+		Run:     runC13,
 		Trusted: []string{"strconv.Atoi contract (value clamped on range error)", "net/http.Redirect writes the given status and Location"},
 		Mutants: []mutant{
 			{Name: "redirect built from a URL without RawPath", File: "route/table.go", Old: "\t\t\t\tredirect.BuildRedirectURL(req.URL)\n", New: "\t\t\t\tredirect.BuildRedirectURL(&url.URL{Host: req.Host, Path: req.URL.Path, RawQuery: req.URL.RawQuery})\n", Expect: "C13.E2"},
